@@ -122,8 +122,8 @@ E(e, p, ns, sd, d) ==
           ELSE LET r == ERep(e, first.p, first.ns, <<Pack(first.items)>>, sd, d - 1, p) IN
                IF Abort(r) THEN r
                ELSE IF r.k = "ok" THEN S(r.p, <<ClosedL(r.items)>>, ClosedL(r.items), r.ns, FALSE)
-               ELSE IF isjoin /\ ~e.plus /\ r.k = "kosep"
-                    THEN S(p, <<ClosedL(<<>>)>>, ClosedL(<<>>), ns, FALSE)   \* s%{e} == s%{e}+ | {}
+               ELSE IF isjoin /\ ~e.plus /\ r.k = "kosep" /\ ~first.cut     \* s%{e} == s%{e}+ | {} ; a cut in the first
+                    THEN S(p, <<ClosedL(<<>>)>>, ClosedL(<<>>), ns, FALSE)   \* element commits the option e {s ~ e}
                ELSE F
     [] e.op = "and" -> LET r == E(e.e, p, ns, sd, d - 1) IN
                        IF Abort(r) THEN r ELSE IF r.k = "ok" THEN S(p, <<>>, None, ns, FALSE) ELSE F
